@@ -64,7 +64,8 @@ def _effects_in(ctx, f, region):
             st = f.blocks[n[1]]["stmts"][n[2]]
             if st["s"] == "assign" and any(e["p"] == "deref" for e in st["place"]["proj"]) and not st["span"]["macros"]:
                 out.append(("store through a reference (line %d)" % st["span"]["line"], n, None))
-            elif st["s"] == "assign" and not st["place"]["proj"] and st["place"]["local"] in f.debug_names() and st["place"]["local"] != 0 and not st["span"]["macros"]:
+            elif st["s"] == "assign" and not st["place"]["proj"] and st["place"]["local"] in f.debug_names() and st["place"]["local"] != 0 and not st["span"]["macros"] \
+                    and st["place"]["local"] not in f.inlined_locals():
                 out.append(("assignment to variable %s (line %d)" % (f.debug_names()[st["place"]["local"]], st["span"]["line"]), n, None))
     return out
 
